@@ -148,11 +148,13 @@ class PythonExpressionMapper(StringifyMapper):
         self._numpy = numpy
 
     def map_constant(self, expr, *args):
+        # Convert numpy scalars first: repr(numpy.float64("nan")) is
+        # "np.float64(nan)", which float() cannot read back.
+        if isinstance(expr, np.generic):
+            expr = expr.item()
         if isinstance(expr, (float, np.number)):
             if np.isinf(expr) or np.isnan(expr):
                 return "float('" + repr(expr) + "')"
-        if isinstance(expr, np.generic):
-            expr = expr.item()
 
         return repr(expr)
 
